@@ -116,6 +116,17 @@ def takeKeyLoop (l : Local) : List Key → List Ev
   | [] => []
   | k :: ks => (if k ∈ l.keys then [.stateDict k] else []) ++ [.coll (.keyBarrier k)] ++ takeKeyLoop l ks
 
+/-- A tempting "optimisation" of that loop (not what the code does): skip the rest of the iteration — the barrier
+included — when the stateful's state dict flattens to no leaves (a parameter-less module).  Kept only for the witness
+`C12_witness_skip_barrier_on_empty`. -/
+def takeKeyLoopSkipEmpty (l : Local) : List Key → List Ev
+  | [] => []
+  | k :: ks =>
+    (if k ∈ l.keys then
+      [.stateDict k] ++ (if (l.leaves.filter (fun kl => kl.1 == k)).all (fun kl => kl.2.isEmpty)
+        then [] else [.coll (.keyBarrier k)])
+     else [.coll (.keyBarrier k)]) ++ takeKeyLoopSkipEmpty l ks
+
 /-- snapshot.py:599-618 — `prepare_write` for every flattened leaf (no collectives). -/
 def prepareEvs (l : Local) : List Ev :=
   l.leaves.flatMap (fun kl => kl.2.map (Ev.prepareWrite kl.1))
